@@ -120,12 +120,13 @@ structure NodeSt.AgreeCore (s : NodeSt) : Prop where
   trieCount : ∀ space t, alookup space s.remote = some t → ∀ p, t.count p = regCount s.streams space p
   trieLive : ∀ space t, alookup space s.remote = some t → t.size ≠ 0
   tags : ∀ st, st ∈ s.pool → ∀ tag, (tag ∈ st.tags ↔ ∃ space p, s.Reg st.sid space p ∧ tag = interestTag space p)
-  inPool : ∀ sid space p, s.Reg sid space p → ∃ st, st ∈ s.pool ∧ st.sid = sid
   validReg : ∀ sid space p, s.Reg sid space p → validSpaceId space = true
 
 /-- **the three views agree**: the space tries (`remote`: refcount of a pattern = number of streams
 that registered it, no empty trie), the per-stream records (`streams`: well formed, none empty) and
-the stream tags of the pool describe one relation `(stream, space, pattern)`. -/
+the stream tags of the pool describe one relation `(stream, space, pattern)`. A stream may be
+recorded without being in the pool: that is the window between the pool's removal of a closing stream
+and its close hook (`poolRemove` / `closeHook` are separate steps). -/
 structure NodeSt.Agree (s : NodeSt) : Prop extends NodeSt.AgreeCore s where
   trieHas : ∀ sid space p, s.Reg sid space p → ∃ t, alookup space s.remote = some t
 
@@ -142,18 +143,25 @@ inductive NodeOp where
   | unsubscribe (sid : Nat) (space : String) (topics : List String)
   | publish (peer ident space topic msgIdent : String) (relayed idLenOk big : Bool)
   | closeStream (sid : Nat)
+  | poolRemove (sid : Nat)
+  | closeHook (sid : Nat)
   | evict (space acct : String)
   | revalidate (space : String)
   | closeSpace (space : String)
   | setMember (space acct : String) (v : Bool)
 
 def NodeSt.step (s : NodeSt) : NodeOp → NodeSt
-  | .openStream sid peer ident => if (s.poolStream sid).isSome then s else s.openStream sid peer ident
+  | .openStream sid peer ident =>
+      -- pool ids are never reused: the id is neither in the pool nor still recorded
+      if (s.poolStream sid).isSome || (alookup sid s.streams).isSome then s else s.openStream sid peer ident
   | .subscribe sid peer ident space topics => (s.handleSubscribe sid peer ident space topics).1
   | .unsubscribe sid space topics => s.handleUnsubscribe sid space topics
   | .publish peer ident space topic msgIdent relayed idLenOk big =>
       (s.handlePublish peer ident space topic msgIdent relayed idLenOk big).1
   | .closeStream sid => s.closeStream sid
+  | .poolRemove sid => s.poolRemove sid
+  -- the close hook runs only for a stream the pool has already dropped
+  | .closeHook sid => if (s.poolStream sid).isSome then s else s.onStreamClose sid
   | .evict space acct => s.evictMember space acct
   | .revalidate space => s.revalidate space
   | .closeSpace space => s.closeSpace space
